@@ -44,7 +44,7 @@ TFire == Step("fire") /\ sig' = sig \cup {E.k} /\ UNCHANGED <<scen, prod, taken,
 TRm == Step("rm") /\ live' = live \ {E.k} /\ UNCHANGED <<scen, prod, taken, deliv, sig, wait>> /\ NoFlag
 TSpoll == Step("spoll") /\
    (CASE E.res = "item" -> taken' = Put(taken, E.k, Get(taken, E.k, 0) + 1) /\ sig' = sig \cup {E.k} /\ UNCHANGED live
-     [] E.res = "pending" -> sig' = (IF Fld(E, "selfwake", FALSE) THEN sig \cup {E.k} ELSE sig \ {E.k}) /\ UNCHANGED <<taken, live>>    \* now waits for its waker (a yielding stream has already woken it)
+     [] E.res = "pending" -> sig' = (IF Fld(E, "selfwake", FALSE) \/ Fld(E, "deferred", FALSE) THEN sig \cup {E.k} ELSE sig \ {E.k}) /\ UNCHANGED <<taken, live>>    \* now waits for its waker (a yielding stream has already woken it; a read refused by the runtime's budget is owed a wake-up by the runtime)
      [] OTHER -> live' = live \ {E.k} /\ UNCHANGED <<taken, sig>>)             \* end of stream
    /\ UNCHANGED <<scen, prod, deliv, wait>> /\ NoFlag
 TPoll == Step("poll") /\ UNCHANGED <<scen, prod, taken, deliv, live, sig, wait>> /\ NoFlag
